@@ -17,6 +17,8 @@ def proj_class(d):
 
 
 def in_class(d):
+    if d.get("strwide"):
+        return "strlen-wide"       # a string declares its length with 10+ digits (family StrLenVars / MetainfoScan.tla)
     if d.get("overrun"):
         return "strlen-overrun"
     if d.get("depth", 0) >= 100000:
@@ -32,7 +34,10 @@ def run(ctx):
                        "the real code on one generated or mutated input, judged by TLC; non-trivial = the call accepted the input or "
                        "ended in an event; distinct = distinct (site, projection of the accepted description, event)")
     ctx.assumptions += [
-        "hang = one call burns more CPU than 1 s (quick; 1.5 s thorough) + 0.3 ms per piece, and again more than 4x that when re-run alone (piece construction, start) / 150 s (parser phase), or is silent for 60/240 s",
+        "hang = one call burns more CPU than 1 s (quick; 1.5 s thorough) + 0.3 ms per piece, and again more than 4x that when re-run alone (piece construction, start) / 150 s (parser phase; 10 s for an input of at most 64 KiB), or is silent for 60/240 s",
+        "declared string lengths: 15 values (2^31-1 .. forty nines, among them the values that wrap a 32/64-bit word to the true length, "
+        "to a negative length and back onto the same token) x 7 positions of a .torrent on two representative dictionaries; "
+        "the byte-level mutations of these inputs are judged like all mutations",
         "runaway allocation = live heap above 1 GiB (piece construction, start) / 3 GiB (parser) or allocated bytes above 16 MiB + 256 x input",
         "piece construction and Start are run on representatives of every distinct accepted projection (PL, N, lengths, padding); "
         "in the quick tier the projections with a negative or >= 2^62 length are a seeded sample",
@@ -53,6 +58,13 @@ def run(ctx):
             ok, _ = ctx.tlc_mc("MetainfoFetch", "MC_MetainfoFetch_hdronly.cfg", timeout=600, workers=2, expect_ok=False)
             if ok:
                 raise vlib.MachineryError("MC_MetainfoFetch_hdronly.cfg (time-out covers the head only) was expected to violate Bounded")
+            # declared string lengths: the range-checked pre-scan stays inside the buffer and moves forward on EVERY byte
+            # string over the scan alphabet; the design whose accumulator wraps must fail both ways (vacuity guards)
+            ctx.tlc_mc("MetainfoScan", ctx.pick("MC_MetainfoScan.cfg", "MC_MetainfoScan_big.cfg"), timeout=1200, workers=2)
+            for cfg, what in (("MC_MetainfoScan_wrap_crash.cfg", "InBuffer"), ("MC_MetainfoScan_wrap_hang.cfg", "Bounded")):
+                ok, _ = ctx.tlc_mc("MetainfoScan", cfg, timeout=600, workers=2, expect_ok=False)
+                if ok:
+                    raise vlib.MachineryError("%s (length accumulator wraps) was expected to violate %s" % (cfg, what))
             if not ctx.quick():
                 ctx.tlc_mc("MC_Metainfo", "MC_Metainfo_big.cfg", timeout=3000, workers=4)
         except Exception as ex:  # re-raised in the main thread
